@@ -54,6 +54,10 @@ STRENGTHENED = [
     ("seeded/C06-e", "if clauses of a comprehension re-ordered ('cheap cuts first') when an earlier clause loops over a sub-collection and a later one relies on it as a guard", "typed generator: guard pairs - first clause a nested comprehension / lambda over a member sequence, second clause `First(seq) == First(seq)`"),
     ("seeded/C08-e", "partially quoted return annotation Iterable['X'] / Box['X']", "C08 renders a third of the generic return annotations partially quoted (typing caches emptied per case)"),
     ("seeded/C14-e", "the lambda that takes a package apart has a defaulted keyword-only parameter the call omits (no longer inlined)", "C14 enables called lambdas with keyword-only parameters in its producer / consumer chains"),
+    ("seeded/C20-e", "hash of a flattened token stream without list / node end markers: f(g(a), b) and f(g(a, b)) collide", "C20 re-bracketing edits: same leaves in the same order with a list boundary moved (next sibling into the preceding call / tuple / list / boolean chain and back, currying f(a, b) <-> f(a)(b), arithmetic re-association, a < b < c <-> a < (b < c), g() <-> g, last parameter -> keyword-only, item into a nested dict)"),
+    ("seeded/C17-e", "a positional argument of a method-form operator call that is directly another method-form operator call (stale argument snapshot)", "C17: the seed of Aggregate is an arbitrary int expression (often directly Count / Sum of a sequence, in either form); three more exhaustive positions (operator call directly as argument of a method-form / function-form / chained operator call)"),
+    ("seeded/C03-f", "source text of one-line defs memoised per (module, qualified name): a helper re-defined later in the file gets the first version's source", "C03 families: a one-line def re-defined under the same name (module level and inside a function, the old version optionally used again through a saved reference); same-named one-line defs in both arms of an if inside a builder that is called several times"),
+    ("seeded/C01-f", "identity SelectMany (a flatten) elided like an identity Select", "typed model: Evt.groups() is a sequence of sequences, so element variables of sequence type exist and SelectMany(src, lambda g: g) / First over nested sequences are generated (C01, C02, C14, C18)"),
     ("seeded/C08-c", "generic subclass with more type parameters than its base uses", "C08 skeleton: Tag(Box[K], Generic[K,V]), Tag2(Box[V], ...), Swap(Pair[U,T], ...), HalfPair(Pair[T,int]), It2(Iterable[V], ...), TagInts(Tag[int,V]); class names taken from typing. This extension also exposed the genuine defects D29 and D30"),
 ]
 
